@@ -41,6 +41,7 @@ fn exchange(ctx_rc: &crate::harness::SharedCtx, prefix: &str) -> Result<Exchange
 
 /// one NEGOTIATE / CHALLENGE / AUTHENTICATE exchange; `reuse` = the client object (and its account) of a previous one
 fn exchange_once(ctx_rc: &crate::harness::SharedCtx, prefix: &str, reuse: Option<(Ntlm, ClientCfg, bool)>) -> Result<(Ntlm, ntlm::Verified, ClientCfg, bool), Outcome> {
+    let mut oversize = false;
     let (cfg, nla, oem, use_hash) = {
         let mut ctx = ctx_rc.borrow_mut();
         let mut cfg = ClientCfg::plain();
@@ -53,15 +54,43 @@ fn exchange_once(ctx_rc: &crate::harness::SharedCtx, prefix: &str, reuse: Option
             let c = *ctx.pick("long_password_char", &['x', 'é', '語', '😀']);
             cfg.password = std::iter::repeat(c).take(n).collect();
         }
+        // sizes at the edge of the 16-bit length fields of the AUTHENTICATE message: a name of 32768 UTF-16 units no
+        // longer fits; the client may refuse, it must not emit a token whose fields lie about themselves
+        let huge = reuse.is_none() && ctx.chance("sizes_at_the_16_bit_edge", 1, 30);
+        let mut huge_target_info: Option<usize> = None;
+        if huge {
+            oversize = true;
+            match ctx.choose("huge_what", 3) {
+                0 => { let n = *ctx.pick("huge_user_len", &[32766usize, 32767, 32768, 32769, 40000]); cfg.user = "U".repeat(n); }
+                1 => { let n = *ctx.pick("huge_domain_len", &[32766usize, 32767, 32768, 32769, 40000]); cfg.domain = "d".repeat(n); }
+                _ => { huge_target_info = Some(65535 - ctx.choose("huge_ti_short_of_max", 60) as usize); }
+            }
+            ctx.probe("sizes_at_the_16_bit_edge");
+        }
         let mut use_hash = ctx.chance("use_hash", 1, 3);
         if let Some((_, c, h)) = &reuse {
             cfg = c.clone();
             use_hash = *h;
         }
+        if cfg.user.len() >= 32760 || cfg.domain.len() >= 32760 {
+            // (also when the account comes from an earlier handshake of the same object)
+            oversize = true;
+        }
         // OEM strings are only defined for ASCII here
         let oem = oem && cfg.domain.is_ascii() && cfg.user.is_ascii();
         seed_client_randomness(&mut ctx);
         let mut nla = make_nla(&mut ctx, &cfg);
+        if let Some(total) = huge_target_info {
+            // one more AV pair (a DNS tree name of odd size) brings the TargetInfo block to `total` octets
+            let now: usize = nla.challenge_cfg.av_pairs.iter().map(|(_, v)| 4 + v.len()).sum::<usize>() + 4;
+            if total > now + 4 {
+                let fill = total - now - 4;
+                nla.challenge_cfg.av_pairs.retain(|(id, _)| *id != 5);
+                let now2: usize = nla.challenge_cfg.av_pairs.iter().map(|(_, v)| 4 + v.len()).sum::<usize>() + 4;
+                let fill = if now2 != now { total - now2 - 4 } else { fill };
+                nla.challenge_cfg.av_pairs.insert(0, (5, vec![0x61; fill]));
+            }
+        }
         // a server may also announce 56-bit support next to 128 (128 wins)
         if ctx.chance("negotiate_56_too", 1, 6) {
             nla.challenge_cfg.extra_flags |= ntlm::NEG_56;
@@ -110,7 +139,14 @@ fn exchange_once(ctx_rc: &crate::harness::SharedCtx, prefix: &str, reuse: Option
     let auth_raw = match r {
         Err(p) => return Err(panic_outcome(&p)),
         Ok(Ok(a)) => a,
-        Ok(Err(e)) => return Err(viol(&format!("{}/challenge-refused", prefix), &err_kind(&e), format!("the client refused a conforming CHALLENGE: {}", err_kind(&e)))),
+        Ok(Err(e)) => {
+            if oversize && err_kind(&e).contains("InvalidSize") {
+                // refusal of what cannot be expressed is the right answer; nothing to verify
+                ctx_rc.borrow_mut().probe("oversize_refused");
+                return Err(Outcome::Pass);
+            }
+            return Err(viol(&format!("{}/challenge-refused", prefix), &err_kind(&e), format!("the client refused a conforming CHALLENGE: {}", err_kind(&e))));
+        }
     };
     ctx_rc.borrow_mut().ev("drv", format!("AUTHENTICATE {} bytes {}", auth_raw.len(), crate::tape::hex_short(&auth_raw)));
     let auth = match ntlm::parse_authenticate(&auth_raw) {
